@@ -416,6 +416,21 @@ Definition new_upstream (is_ip : str -> bool) (addr dial_addr : str) (socks : bo
   | _ => None
   end.
 
+(** ** Several upstreams created one after another
+
+    NewUpstream keeps no state and does not write to its options (it clones
+    Opt.TLSConfig before defaulting the server name): the upstreams of a
+    sequence of calls are the upstreams of the single calls. *)
+Definition new_upstreams (is_ip : str -> bool) (calls : list (str * str * bool)) : list (option target) :=
+  map (fun c => new_upstream is_ip (fst (fst c)) (snd (fst c)) (snd c)) calls.
+
+(** tls.Config.ServerName an upstream ends up with: the caller's if set, else derived from the URL *)
+Definition effective_tls_name (preset : str) (t : target) : option str :=
+  match t_tls_name t with
+  | Some name => Some (if is_nil preset then name else preset)
+  | None => None
+  end.
+
 (** ** Every place where the created upstream dials
 
     The plain udp upstream has two: dialUdpPipeline (the UDP socket) and
